@@ -52,11 +52,13 @@ type Harness struct {
 	MaxPaths int
 	Preempt  int
 	Timers   int
+	Delays   int
 	Tier     int
 	Expect   []string // labels of reach witnesses that must be hit
 	Doc      string
 	Solver   string
 	NoNative bool
+	VirtualClock bool
 }
 
 type WorkItem struct {
@@ -237,7 +239,7 @@ func findHarnesses(prog *ssa.Program, pkgs []*packages.Package, prop string, tie
 			if !ok || !strings.HasPrefix(name, prefix) {
 				continue
 			}
-			h := &Harness{Name: name, Pkg: p.PkgPath, Fn: fn, Stubs: map[string]Value{}, Unwind: 64, MaxSteps: 3_000_000, MaxPaths: 20000, Preempt: 0, Timers: 0}
+			h := &Harness{Name: name, Pkg: p.PkgPath, Fn: fn, Stubs: map[string]Value{}, Unwind: 64, MaxSteps: 3_000_000, MaxPaths: 20000, Preempt: 0, Timers: 0, Delays: -1}
 			for k, v := range globalStubs {
 				h.Stubs[k] = v
 			}
@@ -285,6 +287,10 @@ func findHarnesses(prog *ssa.Program, pkgs []*packages.Package, prop string, tie
 						h.Preempt = atoi(1)
 					case "timers":
 						h.Timers = atoi(1)
+					case "delays":
+						h.Delays = atoi(1)
+					case "clock":
+						h.VirtualClock = len(f) > 1 && f[1] == "virtual"
 					case "native":
 						if len(f) > 1 && f[1] == "off" {
 							h.NoNative = true
@@ -616,7 +622,7 @@ func backendFor(h *Harness, opts *Options) string {
 
 func explore(prog *ssa.Program, h *Harness, opts *Options) *HarnessResult {
 	res := &HarnessResult{Name: h.Name, Pkg: h.Pkg, Reached: map[string]int{}, Asserts: map[string]int{}, Doc: h.Doc, NoNative: h.NoNative,
-		Bounds: map[string]int{"unwind": h.Unwind, "max_steps_per_path": h.MaxSteps, "max_paths": h.MaxPaths, "preemptions": h.Preempt, "timer_firings": h.Timers}}
+		Bounds: map[string]int{"unwind": h.Unwind, "max_steps_per_path": h.MaxSteps, "max_paths": h.MaxPaths, "preemptions": h.Preempt, "timer_firings": h.Timers, "scheduling_delays": h.Delays}}
 	e := &explorer{res: res, funcs: map[string]bool{}, vio: map[string]*ViolationOut{}, inconc: map[string]int{}, unknown: map[string]int{},
 		approx: map[string]bool{}, leaked: map[string]bool{}, h: h, opts: opts, start: time.Now()}
 	e.cond = sync.NewCond(&e.mu)
